@@ -124,7 +124,7 @@ def from_plan(shape, feats, i, for_codec=True):
     if "codec_index" in F: vs[-1]["cindex"] = [200]; vs.append(variant("D", "unit", cindex=7))
     if "discriminant" in F:
         # explicit discriminants on a unit variant AND on a data variant (allowed with a primitive repr)
-        vs.append(variant("X", "unit", discr=42)); vs.append(variant("Y", "unit"))
+        vs.append(variant("X", "unit", discr=42)); vs.append(variant("Y", "unit")); vs.append(variant("W", "unit", discr=16)); vs.append(variant("W2", "unit", discr=64))
         next(v for v in vs if v["name"] == "B")["discr"] = [33]
     if "codec_index" in F and "discriminant" in F: vs.append(variant("Z", "unit", cindex=9, discr=77))
     dd = decl("enum", name, "named", (), vs, tparams, lifetimes, capture, replace, docs, mods, inst, ctext, consts=consts, **style)
@@ -323,9 +323,15 @@ def decl_src0(d, with_codec):
             if v["cindex"] and first_index: s += "    #[codec(index = %s)]\n" % lit(v["cindex"][0], v["cindex"][0] + len(d["name"]))
             if v["skip"]: s += "    #[codec(skip)]\n"
             if v["cindex"] and not first_index: s += "    #[codec(index = %s)]\n" % lit(v["cindex"][0], v["cindex"][0] + len(d["name"]))
-            s += "    " + v["name"] + body_src(v["shape"], v["fields"], d, "    ", False, with_codec) + (" = %d" % v["discr"][0] if v["discr"] else "") + ",\n"
+            s += "    " + v["name"] + body_src(v["shape"], v["fields"], d, "    ", False, with_codec) + (" = " + discr_src(v["discr"][0], v["discr"][0] + len(v["name"]) + len(d["name"])) if v["discr"] else "") + ",\n"
         s += "}\n"
     return s
+
+def discr_src(val, k):
+    """an explicit discriminant is an EXPRESSION: the same value written in several ways (the enum is #[repr(u8)])"""
+    forms = ["%d" % val, "0x%X" % val, "(%d)" % val, "%d + %d" % (val - val // 3, val // 3), "0b%s" % bin(val)[2:], "%du8" % val, "%d_u8 | 0" % val,
+             ("1 << %d" % (val.bit_length() - 1)) if val and val & (val - 1) == 0 else "%d * 1" % val]
+    return forms[k % len(forms)]
 
 def is_phantom(t):
     return t["c"] == "phantom" or (t["c"] in ("box", "ref") and is_phantom(t["a"][0]))
